@@ -1,6 +1,7 @@
 (* C15 - Dry-run (-n) commands change nothing.
    Generated/Guards.v is the guard structure of Eups.declare / undeclare / unassignTag / remove (and of the
-   methods they call) regenerated from python/eups/Eups.py on every run.  The theorems say: with
+   methods they call), and of the command classes of cmd.py that drive them, regenerated from
+   python/eups/Eups.py, cmd.py and app.py on every run.  The theorems say: with
    self.noaction = True no call that the translator classifies as writing (database record, product cache,
    file system, or any callee it does not know) is reachable from an entry point - on any path through the
    opaque conditions, any number of loop iterations, any exception. *)
@@ -48,6 +49,51 @@ Print Assumptions dryrun_unassignTag.
 Theorem dryrun_remove o w : exec (body_in prog) true (SCall f_remove) o w -> w = [].
 Proof. apply dryrun_changes_nothing. vm_compute. tauto. Qed.
 Print Assumptions dryrun_remove.
+
+(* the command-line front end (eups declare / undeclare / remove with -n): DeclareCmd, UndeclareCmd and
+   RemoveCmd.execute of cmd.py and the wrappers declare / undeclare of app.py are translated as well; a call
+   of an Eups method on the instance built by createEups (which hands opts.noaction to the constructor: the
+   translator checks this textually and fails closed) is a call of the translated method.  No write site is
+   reachable from a command either - this covers the loop of eups remove -t TAG, which removes the tag from
+   every product through Eups.unassignTag, and anything the commands do themselves. *)
+Theorem dryrun_commands_change_nothing :
+  forall f, In f command_entry_points ->
+  forall o w, exec (body_in prog) true (SCall f) o w -> w = [].
+Proof.
+  assert (Hok : forall f, In f command_entry_points -> ok_in oks f = true).
+  { apply Forall_forall. vm_compute. repeat constructor. }
+  intros f Hf o w He.
+  apply (safe_sound prog oks true generated_table_justified (SCall f) o w He).
+  cbn [safe]. now apply Hok.
+Qed.
+Print Assumptions dryrun_commands_change_nothing.
+
+Theorem dryrun_cmd_declare o w : exec (body_in prog) true (SCall f_cmd_declare) o w -> w = [].
+Proof. apply dryrun_commands_change_nothing. vm_compute. tauto. Qed.
+Print Assumptions dryrun_cmd_declare.
+
+Theorem dryrun_cmd_undeclare o w : exec (body_in prog) true (SCall f_cmd_undeclare) o w -> w = [].
+Proof. apply dryrun_commands_change_nothing. vm_compute. tauto. Qed.
+Print Assumptions dryrun_cmd_undeclare.
+
+Theorem dryrun_cmd_remove o w : exec (body_in prog) true (SCall f_cmd_remove) o w -> w = [].
+Proof. apply dryrun_commands_change_nothing. vm_compute. tauto. Qed.
+Print Assumptions dryrun_cmd_remove.
+
+(* non-vacuity of the command theorems: the commands do reach the mutating methods (declare through the
+   wrapper of app.py, remove both Eups.remove and - in the tag loop - Eups.unassignTag), and with noaction
+   off the same analysis finds no command, wrapper or mutating method free of writes *)
+Example commands_reach_the_mutating_methods :
+  In f_app_declare (calls body_cmd_declare) /\ In f_declare (calls body_app_declare) /\
+  In f_app_undeclare (calls body_cmd_undeclare) /\ In f_undeclare (calls body_app_undeclare) /\
+  In f_remove (calls body_cmd_remove) /\ In f_unassignTag (calls body_cmd_remove).
+Proof. vm_compute. tauto. Qed.
+
+Example commands_not_write_free_when_not_dry :
+  table_justified prog oks_wet false = true /\
+  forallb (fun f => negb (ok_in oks_wet f)) (entry_points ++ command_entry_points) = true /\
+  forallb (fun f => negb (safe (ok_in oks_wet) false (body_in prog f))) (entry_points ++ command_entry_points) = true.
+Proof. vm_compute. repeat split. Qed.
 
 (* non-vacuity: the generated bodies do contain write sites, the analyser rejects the same bodies when
    noaction is off, and a write is really reachable then *)
